@@ -16,6 +16,7 @@ DOT_SPELLINGS = ['.', '..', './', '../', 'd/.', 'd/..', 'd/./', './/',
 def config(tier):
     return {
         'level': 'exploration',
+        'cold_sample': 6 if tier == 'quick' else 40,
         'real_sample': 10 if tier == 'quick' else 80,
         'cases': 6000 if tier == 'quick' else 120000,
         'budget_s': 45 if tier == 'quick' else 560,
